@@ -25,6 +25,20 @@ ChunkStore::ChunkStore(Config config)
             persistent_enabled_ = false;
         }
     }
+    if (persistent_enabled_ && wipe_on_expiry_) {
+        // No record survives a restart, so chunk files found here belong to an earlier instance (or to a store
+        // or wipe that was interrupted): nothing tracks their deadline any more. Wipe them now.
+        std::error_code ec;
+        std::vector<std::filesystem::path> leftovers;
+        for (std::filesystem::directory_iterator it(storage_root_, ec), end; !ec && it != end; it.increment(ec)) {
+            if (it->is_regular_file(ec) && it->path().extension() == ".chunk") {
+                leftovers.push_back(it->path());
+            }
+        }
+        for (const auto& path : leftovers) {
+            secure_wipe_file(path);
+        }
+    }
 }
 
 void ChunkStore::put(const ChunkId& id,
